@@ -51,10 +51,10 @@ def run_threads(ctx):
         ctx.violation("harness:tsan", "TSan harness does not build", {"broken": "tsan harness", "error": (err or "")[-2000:]}, found_input=False)
         return
     for nthreads in (8, 16):
-        line = "threads %d %d 300" % (nthreads, ctx.seed)
+        line = "threads %d %d 3000" % (nthreads, ctx.seed)
         o, rc, e = diffrun.run_lines(exe, [line], env={"TSAN_OPTIONS": "halt_on_error=0:exitcode=66"}, timeout=1800)
         good = rc == 0 and o and o[0].startswith("threads-ok")
-        ctx.count(nthreads * 300, [("thr", nthreads)])
+        ctx.count(nthreads * 3000, [("thr", nthreads)])
         ctx.oblige("tsan", "S-thr: %d threads, per-thread digests equal the sequential run, no data race reported" % nthreads, good, (o[0] if o else "") + " " + e[-300:])
         if not good:
             import re
